@@ -21,6 +21,21 @@ Theorem C07_sample_sets_clock : stmt_sample_sets_clock.
 Proof. exact sample_sets_clock_ok. Qed.
 Print Assumptions C07_sample_sets_clock.
 
+(* over whole histories of sweeps: never earlier than last sample + ttl, never with ttl 0 ... *)
+Theorem C07_not_before_ttl : stmt_not_before_ttl.
+Proof. exact not_before_ttl_ok. Qed.
+Print Assumptions C07_not_before_ttl.
+
+(* ... gone at the first sweep after that, for good (until a sample recreates it) ... *)
+Theorem C07_gone_after_ttl : stmt_gone_after_ttl.
+Proof. exact gone_after_ttl_ok. Qed.
+Print Assumptions C07_gone_after_ttl.
+
+(* ... and sweeps only ever remove series: nothing appears, no claim on a name changes *)
+Theorem C07_sweeps_only_remove : stmt_sweeps_only_remove.
+Proof. exact sweeps_only_remove_ok. Qed.
+Print Assumptions C07_sweeps_only_remove.
+
 (* Non-vacuity: ttl 2, sample at 0, sweeps at 2 (kept: not older than the ttl) and 3 (removed). *)
 Definition c07_event : event := {| e_kind := KGauge false; e_name := [x67]; e_value := f_zero; e_labels := [] |}.
 Definition c07_defaults : defaults :=
